@@ -106,6 +106,7 @@ package ice
 //@   site call Write#1 assert refuses-stun-payloads: !isStunMsg(elems(packet), packet.off, len(packet))
 //@   site call Write#1 assert only-over-the-validated-pair-with-that-id: arg0 == pair && pair != nil && arg1 == packet && lookupErr == nil && pair.state == CandidatePairStateSucceeded
 //@   site call UpdatePacketSent#1 assert pair-counter-counts-accepted-bytes: arg0 == pair && arg1 == n && n > 0
+//@   site call Add#1 assert connection-counter-counts-accepted-bytes: arg1 == n && n > 0
 //@   ensures stun-refused: isStunMsg(elems(packet), packet.off, len(packet)) ==> result0 == 0 && result1 != nil
 
 //@ func (*Conn).WriteToPair$1
